@@ -107,6 +107,7 @@ type c20State struct {
 	wg      sync.WaitGroup
 	// conn
 	deadline  time.Time
+	rdl, wdl  bool // a read / write deadline is currently set
 	dlTimer   *time.Timer
 	closed    bool
 	poisoned  bool
@@ -243,15 +244,26 @@ type c20Conn c20State
 func (c *c20Conn) LocalAddr() net.Addr  { return &net.TCPAddr{} }
 func (c *c20Conn) RemoteAddr() net.Addr { return &net.TCPAddr{} }
 
-func (c *c20Conn) SetReadDeadline(t time.Time) error  { return c.SetDeadline(t) }
-func (c *c20Conn) SetWriteDeadline(t time.Time) error { return c.SetDeadline(t) }
+// the read and the write deadline are also tracked separately (a Dial that arms both and clears one leaves
+// the conn with a deadline); for the trace and the blocking behaviour either of them counts as "the deadline"
+func (c *c20Conn) SetReadDeadline(t time.Time) error  { return c.setDeadline(t, 1) }
+func (c *c20Conn) SetWriteDeadline(t time.Time) error { return c.setDeadline(t, 2) }
+func (c *c20Conn) SetDeadline(t time.Time) error      { return c.setDeadline(t, 3) }
 
-func (c *c20Conn) SetDeadline(t time.Time) error {
+func (c *c20Conn) setDeadline(t time.Time, which int) error {
 	st := (*c20State)(c)
 	st.mu.Lock()
 	defer st.mu.Unlock()
 	if st.aborted {
 		return nil
+	}
+	if !st.frozen {
+		if which&1 != 0 {
+			st.rdl = !t.IsZero()
+		}
+		if which&2 != 0 {
+			st.wdl = !t.IsZero()
+		}
 	}
 	k := "f"
 	switch {
@@ -535,7 +547,10 @@ func c20Run(c *ctx, sc c20Scenario) {
 		tr = strings.Join(st.log, ",")
 	}
 	st.mu.Unlock()
-	c.emit("C20 %s -> %s %d %d", sc, tr, b2i(hang), leak)
+	st.mu.Lock()
+	dl := fmt.Sprintf("%d%d", b2i(st.rdl), b2i(st.wdl))
+	st.mu.Unlock()
+	c.emit("C20 %s -> %s %d %d %s", sc, tr, b2i(hang), leak, dl)
 	_ = os.Stderr
 }
 
